@@ -279,3 +279,75 @@ def c11_i4(ctx):
         else:
             yield ok("C11-I4", "static:%s" % name, where, "immutable static of type %s" % ty)
     yield ok("C11-I4", "statics", "both crates", "%d statics in the workspace crates" % n, nontrivial=False)
+
+
+@rule("C11", "C11-I5", 5, "the id a transaction task hands back for reaping is the key under which it is routed: (source entity, sequence number) of the PDUs / of the Put")
+def c11_i5(ctx):
+    from common import simp, sstr, RECV, SEND
+
+    # (a) id() of both transaction kinds
+    for adt, nm in ((RECV, "RecvTransaction"), (SEND, "SendTransaction")):
+        f = ctx.one("C11-I5", nm + "::id")
+        eb = ExprBuilder(ctx.prog, f)
+        rets = [sstr(eb._def_expr(d, 0, (0,))) for d in f.defs(0) if d[0] in ("assign", "call")]
+        if rets == ["transaction::TransactionID::TransactionID{self.config.source_entity_id, self.config.sequence_number}"]:
+            yield ok("C11-I5", "%s::id" % nm, at(f), "(config.source_entity_id, config.sequence_number)")
+        else:
+            yield bad("C11-I5", "%s::id" % nm, at(f), "id() is %s, not (config.source_entity_id, config.sequence_number)" % rets)
+    # (b) what the spawned tasks return
+    for fn_name, want in (("spawn_receive_transaction", r"^RecvTransaction::id\(transaction\)$"), ("spawn_send_transaction", r"^(SendTransaction::id\(transaction\)|transaction_id)$")):
+        f = _daemon_fn(ctx, "C11-I5", fn_name)
+        tasks = [c for c in ctx.prog.closures_of(f) if c.parent == f.norm]
+        if not tasks:
+            raise Anchor("C11-I5", fn_name + " task closure")
+        for c in tasks:
+            eb = ExprBuilder(ctx.prog, c)
+            oks = []
+            for d in c.defs(0):
+                if d[0] == "assign" and d[3]["k"] == "agg" and d[3].get("variant") == "Ok":
+                    e = simp(eb.rvalue(d[3]))
+                    oks.append(expr_str(e[5][0]) if e[5] else "?")
+            key = "%s:task-result" % fn_name
+            if oks and all(re.match(want, x) for x in oks):
+                yield ok("C11-I5", key, at(c), "task returns %s" % oks)
+            else:
+                yield bad("C11-I5", key, at(c), "the task returns %s for reaping, not the transaction's own id (the routing entry of another transaction would be removed)" % oks)
+    # (c) receive side: config built from the header's (source entity, sequence number)
+    f = _daemon_fn(ctx, "C11-I5", "spawn_receive_transaction")
+    for _f, b, j, s in agg_sites([f], "TransactionConfig"):
+        e = simp(ExprBuilder(ctx.prog, f, user_stop=True).rvalue(s["rv"]))
+        fl = dict(zip(e[4], e[5]))
+        a, q = expr_str(fl.get("source_entity_id", ("other",))), expr_str(fl.get("sequence_number", ("other",)))
+        if a == "header.source_entity_id" and q == "header.transaction_sequence_number":
+            yield ok("C11-I5", "spawn_receive_transaction:config", at(f, s["span"]["line"]), "config ids from the PDU header")
+        else:
+            yield bad("C11-I5", "spawn_receive_transaction:config", at(f, s["span"]["line"]), "config (source_entity_id, sequence_number) = (%s, %s), not the PDU header's" % (a, q))
+    f = _daemon_fn(ctx, "C11-I5", "spawn_send_transaction")
+    for _f, b, j, s in agg_sites([f], "TransactionConfig"):
+        e = simp(ExprBuilder(ctx.prog, f, user_stop=True).rvalue(s["rv"]))
+        fl = dict(zip(e[4], e[5]))
+        a, q = expr_str(fl.get("source_entity_id", ("other",))), expr_str(fl.get("sequence_number", ("other",)))
+        if a == "transaction_id.0" and q == "transaction_id.1":
+            yield ok("C11-I5", "spawn_send_transaction:config", at(f, s["span"]["line"]), "config ids from the allocated transaction id")
+        else:
+            yield bad("C11-I5", "spawn_send_transaction:config", at(f, s["span"]["line"]), "config (source_entity_id, sequence_number) = (%s, %s), not the allocated id's" % (a, q))
+    # (d) routing key in forward_pdu
+    fw = _daemon_fn(ctx, "C11-I5", "forward_pdu")
+    found = False
+    for c in _body(ctx, fw):
+        eb = ExprBuilder(ctx.prog, c, user_stop=True)
+        for b, t in c.all_calls():
+            e = eb.call(b, t)
+            if (callee_name(e) or "").endswith("HashMap::entry") and "transaction_channels" in expr_str(e[3][0]):
+                k = simp(e[3][1])
+                ks = expr_str(k)
+                if k[0] == "place" and re.match(r"^\w+$", k[1]):
+                    ds = [sstr(x) for x in eb.var_defs(k[1])]
+                    ks = ds[0] if len(ds) == 1 else str(ds)
+                found = True
+                if ks == "transaction::TransactionID::TransactionID{pdu.header.source_entity_id, pdu.header.transaction_sequence_number}":
+                    yield ok("C11-I5", "forward_pdu:routing-key", at(c, t["span"]["line"]), ks)
+                else:
+                    yield bad("C11-I5", "forward_pdu:routing-key", at(c, t["span"]["line"]), "PDUs are routed by %s, not by (header.source_entity_id, header.transaction_sequence_number)" % ks)
+    if not found:
+        raise Anchor("C11-I5", "transaction_channels.entry(key) in forward_pdu")
